@@ -1,4 +1,4 @@
-/- Structural (kernel-evaluable) string helpers. -/
+/- Structural (kernel-evaluable) string helpers: everything goes through `List Char`. -/
 namespace Kust.Str
 
 /-- `strings.Split(s, string(sep))` -/
@@ -7,5 +7,22 @@ def splitChar (sep : Char) (s : String) : List String :=
     | [], cur => [String.ofList cur.reverse]
     | c :: cs, cur => if c = sep then String.ofList cur.reverse :: go cs [] else go cs (c :: cur)
   go s.toList []
+
+def isPrefixL : List Char → List Char → Bool
+  | [], _ => true
+  | _ :: _, [] => false
+  | a :: p, b :: s => a == b && isPrefixL p s
+
+def hasPrefix (s p : String) : Bool := isPrefixL p.toList s.toList
+def hasSuffix (s p : String) : Bool := isPrefixL p.toList.reverse s.toList.reverse
+
+/-- drop the last `n` characters -/
+def dropRight (s : String) (n : Nat) : String := String.ofList (s.toList.reverse.drop n).reverse
+/-- drop the first `n` characters -/
+def dropLeft (s : String) (n : Nat) : String := String.ofList (s.toList.drop n)
+
+/-- `strings.TrimSpace` for ASCII white space -/
+def trim (s : String) : String :=
+  String.ofList (((s.toList.dropWhile Char.isWhitespace).reverse.dropWhile Char.isWhitespace).reverse)
 
 end Kust.Str
